@@ -22,6 +22,11 @@ pub enum Case {
     MacroIncludeCycle(usize),
     /// function-like macro chain F1(x) -> F2(x) ... of length n
     FnMacroChain(usize),
+    /// k sibling usages (kind: 0 macro without text, 1 object-like, 2 function-like, 3 caller-supplied
+    /// macro without text, 4 the siblings stand inside a macro text) in front of a macro chain of length n
+    ChainAfterSiblings(usize, usize, usize),
+    /// k sibling includes of a leaf file in front of an include chain of length n
+    IncludeChainAfterSiblings(usize, usize),
 }
 
 pub const LIMIT: usize = 64;
@@ -62,6 +67,37 @@ pub fn child(args: &[String]) -> i32 {
                 }
             }
             w(top, &format!("{}s `F1(leaf) e\n", s))
+        }
+        "chain-after-siblings" => {
+            let c: usize = args.get(3).and_then(|x| x.parse().ok()).unwrap_or(0);
+            let (def, usage) = match a {
+                0 | 4 => ("`define E\n", "`E "),
+                1 => ("`define E 1\n", "`E "),
+                2 => ("`define E(x) x\n", "`E(q) "),
+                _ => ("", "`E "),
+            };
+            let sib = usage.repeat(b);
+            if a == 4 {
+                w(top, &format!("{}{}`define W {}`A1\ns `W e\n", def, chain_defs("A", c, "leaf"), sib))
+            } else {
+                w(top, &format!("{}{}s {}`A1 e\n", def, chain_defs("A", c, "leaf"), sib))
+            }
+        }
+        "include-chain-after-siblings" => {
+            let mut t = String::from("s\n");
+            for _ in 0..a {
+                t.push_str("`include \"sib.svh\"\n");
+            }
+            t.push_str("`include \"f1.svh\"\ne\n");
+            w(top, &t);
+            w("sib.svh", "x\n");
+            for k in 1..=b {
+                if k < b {
+                    w(&format!("f{}.svh", k), &format!("`include \"f{}.svh\"\n", k + 1));
+                } else {
+                    w(&format!("f{}.svh", k), "leaf\n");
+                }
+            }
         }
         "macro-cycle" => {
             let mut s = String::new();
@@ -109,6 +145,10 @@ pub fn child(args: &[String]) -> i32 {
             }
         }
         _ => return 2,
+    }
+    let mut d = d;
+    if kind == "chain-after-siblings" && a == 3 {
+        d.insert("E".to_string(), None);
     }
     api::quiet_panics();
     let r = api::pp_file(Path::new(top), &d, &incs, false, false);
@@ -162,6 +202,17 @@ fn expect(c: &Case) -> (Vec<String>, String) {
             },
         ),
         Case::MacroIncludeCycle(k) => (vec!["macro-include-cycle".into(), k.to_string()], "LIMIT wraps=*".into()),
+        Case::ChainAfterSiblings(kind, k, n) => {
+            let sib = match kind {
+                1 => "1,".repeat(*k),
+                2 => "q,".repeat(*k),
+                _ => String::new(),
+            };
+            // inside a macro text the chain starts one level deeper
+            let depth = if *kind == 4 { *n + 1 } else { *n };
+            (vec!["chain-after-siblings".into(), kind.to_string(), k.to_string(), n.to_string()], if depth <= LIMIT { format!("OK s,{}leaf,e", sib) } else { "LIMIT wraps=0".into() })
+        }
+        Case::IncludeChainAfterSiblings(k, n) => (vec!["include-chain-after-siblings".into(), k.to_string(), n.to_string()], if *n <= LIMIT { format!("OK s,{}leaf,e", "x,".repeat(*k)) } else { format!("LIMIT wraps={}", LIMIT + 1) }),
     }
 }
 
@@ -235,6 +286,21 @@ pub fn cases(tier: Tier) -> Vec<Case> {
         v.push(Case::IncludeCycle(k));
         v.push(Case::MacroIncludeCycle(k));
     }
+    // the depth is a property of the nesting, not of how much was expanded before
+    let ks: Vec<usize> = if tier == Tier::Quick { vec![1, 64, 70] } else { vec![1, 2, 3, 63, 64, 65, 70, 130] };
+    let ns: Vec<usize> = if tier == Tier::Quick { vec![1, 63, 64, 65] } else { vec![1, 2, 62, 63, 64, 65, 66] };
+    for kind in 0..5 {
+        for k in &ks {
+            for n in &ns {
+                v.push(Case::ChainAfterSiblings(kind, *k, *n));
+            }
+        }
+    }
+    for k in &ks {
+        for n in &ns {
+            v.push(Case::IncludeChainAfterSiblings(*k, *n));
+        }
+    }
     let g: Vec<usize> = if tier == Tier::Quick { vec![1, 2, 63, 64, 65] } else { vec![1, 2, 3, 32, 62, 63, 64, 65, 66] };
     for i in &g {
         for m in &g {
@@ -253,7 +319,7 @@ pub fn cases(tier: Tier) -> Vec<Case> {
 
 pub fn build(tier: Tier) -> Check<'static> {
     let mut c = Check::new("C09", tier, "6/C09");
-    c.rule = "macro chains (object-like and function-like) and include chains of every depth in {1,2,3,16,63,64,65,66,70} (quick) / 1..70 (thorough); macro cycles of length 1-4, include cycles 1-3, macro-expands-to-include cycles through 1-3 files; grids (include depth x macro depth) and (include depth x length of the macro chain naming the included file); each case in its own process with an 8 MiB main stack and a 20 s cap; non-trivial = every case, distinct by construction".into();
+    c.rule = "macro chains (object-like and function-like) and include chains of every depth in {1,2,3,16,63,64,65,66,70} (quick) / 1..70 (thorough); macro cycles of length 1-4, include cycles 1-3, macro-expands-to-include cycles through 1-3 files; chains preceded by 1..70 (thorough ..130) sibling usages / includes at the same level (macro without text, object-like, function-like, caller-supplied, inside a macro text); grids (include depth x macro depth) and (include depth x length of the macro chain naming the included file); each case in its own process with an 8 MiB main stack and a 20 s cap; non-trivial = every case, distinct by construction".into();
     c.assumptions = vec!["limit 64 for both recursion kinds as the property states; an include chain beyond the limit is wrapped in 65 Include levels".into()];
     let cs = std::sync::Arc::new(cases(tier));
     let n = cs.len() as u64;
